@@ -942,8 +942,8 @@ def _command_wiring(ck, root, only=None):
         for where in ('cli', 'rc'):
             for sub, extra in WIRING_SUBCOMMANDS:
                 jobs.append((tpl, where, sub, extra))
-    if only is not None:
-        jobs = [only]
+    if only is not None:                                 # replay: every command form for one (spelling, where)
+        jobs = [j for j in jobs if (j[0], j[1]) == tuple(only)]
     rcdir = os.path.join(root, 'homes')
     for n, tpl in enumerate(WIRING_TEMPLATES):           # written before any child starts
         os.makedirs(os.path.join(rcdir, '%d' % n, '.config', 'jug'))
@@ -994,7 +994,7 @@ def _command_wiring(ck, root, only=None):
         # the property: every command the same way.  The reference is what most commands do (what parse() resolved, on the
         # unchanged code: py_expand); a command that hands backends.select anything else opens another store.
         seen = collections.Counter(x for _, _, sel in rows for x in set(sel))
-        ref = py_expand(tpl, 'wj', 'DATE') if only is not None else seen.most_common(1)[0][0]
+        ref = seen.most_common(1)[0][0]
         for sub, extra, sel in rows:
             if any(x != ref for x in sel):
                 ck.violation({'kind': 'impl-violation',
@@ -1004,7 +1004,7 @@ def _command_wiring(ck, root, only=None):
                               'expected_argument_of_backends_select': py_expand(tpl, 'wj', 'DATE'),
                               'observed_arguments_of_backends_select': sel, 'wiring': True})
     if only is not None:
-        return results[0]
+        return [(j[2], j[3], r['select'] if isinstance(r, dict) else r) for j, r in zip(jobs, results)]
     if failed:
         ck.notes.append('C20 command wiring: %d of %d children did not report: %s' % (len(failed), len(jobs), '; '.join(failed[:3])))
     if len(failed) * 10 > len(jobs) or opened < len(jobs) // 2:
@@ -1285,11 +1285,12 @@ def replay(obj):
             def violation(self, v): self.v = v
         c = _Ck()
         with jugrun.scratch_dir('jugv_c20w') as root:
-            r = _command_wiring(c, root, only=(obj['jugdir_given'], obj['given_in'], obj['subcommand'], obj['extra_args']))
-        print('jug %s wj.py %s  with jugdir %r given in %s' % (obj['subcommand'], ' '.join(obj['extra_args']), obj['jugdir_given'], obj['given_in']))
-        print('expected argument of backends.select:', repr(obj['expected_argument_of_backends_select']))
-        print('observed                            :', r['select'] if isinstance(r, dict) else r)
-        return 1 if hasattr(c, 'v') or not isinstance(r, dict) else 0
+            rows = _command_wiring(c, root, only=(obj['jugdir_given'], obj['given_in']))
+        print('jugdir %r given in %s; the string each command hands to backends.select:' % (obj['jugdir_given'], obj['given_in']))
+        for sub, extra, sel in rows:
+            print('  jug %-12s %-14s -> %s' % (sub, ' '.join(extra), sel))
+        print('all the same' if not hasattr(c, 'v') else 'NOT all the same: e.g. %s' % c.v['subcommand'])
+        return 1 if hasattr(c, 'v') or any(not isinstance(x[2], list) for x in rows) else 0
     if 'args' not in obj or ('config_text' not in obj and 'home' not in obj):
         print('replay: nothing executable in this file:', obj.get('kind'), obj.get('no_longer_checks', ''))
         return 2
